@@ -60,6 +60,30 @@ func main() {
 		fmt.Printf("replaying property %s (recorded: rule=%v key=%v)\n%v\n", prop, rec["rule"], rec["key"], rec["detail"])
 		os.Setenv("PDFVERIF_ONLY_RULE", fmt.Sprint(rec["rule"]))
 		os.Exit(props.Run(prop, "quick"))
+	case "vocab":
+		// pdfverif vocab <out.json>: record the names the rules look for and the
+		// names the reviewed tree declares (tools/gencounts.sh; never run by a check)
+		if len(os.Args) < 3 {
+			usage()
+		}
+		prog, err := core.Load(core.RepoDir(), nil, "./...")
+		if err != nil {
+			fmt.Println(err)
+			os.Exit(2)
+		}
+		vd := os.Getenv("PDFVERIF_DIR")
+		if vd == "" {
+			vd, _ = os.Getwd()
+		}
+		v, err := core.BuildVocab(vd, prog)
+		if err == nil {
+			err = core.WriteVocab(os.Args[2], v)
+		}
+		if err != nil {
+			fmt.Println(err)
+			os.Exit(2)
+		}
+		fmt.Printf("%d checker functions, %d owners of names\n", len(v.Funcs), len(v.Owners))
 	case "inline":
 		// debugging aid: pdfverif inline <pattern> [<func key suffix>] prints
 		// the normalised (helper-inlined) form of functions, or statistics
